@@ -198,3 +198,88 @@ let () =
   register "bzenc" (fun args -> match args with
     | [lvl; hex] -> hex_of_bytes (bzip2_encode (n_of_int (int_of_string lvl)) (bytes_of_hex hex))
     | _ -> "badargs")
+
+(* brotli: the static dictionary is a parameter of the model; it is read
+   from the file named by VERIF_BRDICT (written by the harness from
+   libbrotlicommon) on first use *)
+let brdict : string option ref = ref None
+let get_brdict () : string =
+  match !brdict with
+  | Some d -> d
+  | None ->
+    let path = try Sys.getenv "VERIF_BRDICT" with Not_found -> "/verif/bin/brdict.bin" in
+    let ic = open_in_bin path in
+    let len = in_channel_length ic in
+    let d = really_input_string ic len in
+    close_in ic; brdict := Some d; d
+let byte_n : n array = Array.init 256 n_of_int
+let () =
+  register "brotli" (fun args -> match args with
+    | [hex] ->
+      let d = get_brdict () in
+      let dl = String.length d in
+      let dict_byte (off : n) : n =
+        let i = int_of_n off in if i < dl then byte_n.(Char.code d.[i]) else N0 in
+      let r = brotli_decode dict_byte (bytes_of_hex hex) in
+      (match r.br_err with
+       | None -> Printf.sprintf "nil %s %d" (hex_of_bytes r.br_out) (int_of_n r.br_used)
+       | Some e -> Printf.sprintf "%s %s" (err_name e) (hex_of_bytes r.br_out))
+    | _ -> "badargs")
+
+(* lw <guarded 0|1> <at|-1> <short 0|1> <once 0|1> call... ; call = w|f|c : accept : chunk,chunk,... *)
+let () =
+  register "lw" (fun args -> match args with
+    | g :: at :: sh :: on :: calls ->
+      let pl = if at = "-1" then None
+               else Some { p_at = n_of_string at; p_short = (sh = "1"); p_once = (on = "1") } in
+      let cs = List.map (fun c -> match colon c with
+        | [k; acc; chunks] ->
+          { c_kind = (match k with "w" -> KWrite | "f" -> KFlush | _ -> KClose);
+            c_accept = n_of_string acc;
+            c_chunks = (if chunks = "-" then [] else List.map n_of_string (String.split_on_char ',' chunks)) }
+        | _ -> { c_kind = KFlush; c_accept = N0; c_chunks = [] }) calls in
+      let (obs, w) = wcalls (g = "1") (lw_init pl) cs in
+      let os = String.concat "," (List.map (fun (n, e) -> oerr_name e) obs) in
+      Printf.sprintf "%s|%s|%s" (if os = "" then "-" else os) (n_to_string w.l_out) (n_to_string w.l_sink.s_len)
+    | _ -> "badargs")
+
+let () =
+  register "lwcls" (fun args ->
+    let r = (Hashtbl.find handlers "lw") args in
+    List.hd (String.split_on_char '|' r))
+
+let () =
+  register "c15" (fun args -> match args with
+    | [hex] ->
+      let d = bytes_of_hex hex in
+      let cls = int_of_n (c15_class d) in
+      (match accepted_content d with
+       | None -> Printf.sprintf "%d -" cls
+       | Some b -> Printf.sprintf "%d %s" cls (hex_of_bytes b))
+    | _ -> "badargs")
+
+let () =
+  register "c15acc" (fun args -> match args with
+    | [hex] ->
+      (match accepted_content (bytes_of_hex hex) with
+       | None -> "0 -"
+       | Some b -> "A " ^ hex_of_bytes b)
+    | _ -> "badargs")
+
+(* genlen <maxbits> <cnt:sym> ... (sorted by count as the caller passes them) ; genpfx <sym:len> ... *)
+let () =
+  register "genlen" (fun args -> match args with
+    | mb :: codes ->
+      let cs = List.map (fun c -> match colon c with
+        | [a; b] -> (n_of_string a, n_of_string b) | _ -> (N0, N0)) codes in
+      (match gen_lengths (n_of_string mb) cs with
+       | GLOk l -> "ok " ^ (if l = [] then "-" else String.concat "," (List.map (fun (s, ln) -> n_to_string s ^ ":" ^ n_to_string ln) l))
+       | GLInvalid -> "invalid"
+       | GLPanic -> "panic")
+    | _ -> "badargs");
+  register "genpfx" (fun args ->
+      let cs = List.map (fun c -> match colon c with
+        | [a; b] -> (n_of_string a, n_of_string b) | _ -> (N0, N0)) args in
+      (match gen_prefixes cs with
+       | GPOk l -> "ok " ^ (if l = [] then "-" else String.concat "," (List.map (fun ((s, ln), v) -> n_to_string s ^ ":" ^ n_to_string ln ^ ":" ^ n_to_string v) l))
+       | GPInvalid -> "invalid"))
